@@ -132,23 +132,31 @@ def run(ctx):
                 "exception class + line named by the message / blocked / step bound), pc, registers, arrays, shared "
                 "memory registers and arrays, unit module (physical qubit mapped to each virtual id) and the executor's set of physical qubits in use; after a fault the application continues with further subroutines (aimed stream: a random one, and for the allocation faults one qalloc per virtual id, some qfrees, one more qalloc).  non-trivial = at least 3 instructions and the reference "
                 "semantics defined on the whole case; distinct = distinct (cap, subroutines)")
-    ctx.props("C04")
-    # bridges from the private interpreters of C03/C05/C08/C10 to Sem / SemQ
-    ctx.props("C04_bridges")
-    # the end-to-end chain C05 -> C03 -> C04 (eval_prog ... SemQ.qrun on the assembled flattened lowering)
-    ok_gen, err_gen = ctx.gen("asm_tables.py", "Gen_Asm.v")   # C03's translator: the regenerated assembler parameters
-    ctx.gen_obligation("translator asm_tables.py understands the source", ok_gen, err_gen.strip()[-300:])
-    if ok_gen:
-        r_gen = ctx.coqc("Gen_Asm.v")
-        ctx.gen_obligation("Gen_Asm.v type-checks", r_gen.ok, r_gen.err[-300:])
-        ctx.trusted.append("gen/asm_tables.py (reads _REPLACE_CONSTANTS_EXCEPTION, REG_INDEX_BITS, RegisterName): the "
-                           "assembler parameters at which C05_end_to_end is stated")
-    ctx.props("C05_end_to_end")
+    # the three property files are compiled concurrently with the correspondence streams
+    from concurrent.futures import ThreadPoolExecutor
+
+    def e2e_job():
+        # the end-to-end chain C05 -> C03 -> C04 is stated at the REGENERATED assembler parameters and codec tables
+        for script, out in (("asm_tables.py", "Gen_Asm.v"), ("codec_tables.py", "Gen_Codec.v")):
+            ok_gen, err_gen = ctx.gen(script, out)
+            ctx.gen_obligation(f"translator {script} understands the source", ok_gen, err_gen.strip()[-300:])
+            if ok_gen:
+                r_gen = ctx.coqc(out)
+                ctx.gen_obligation(f"{out} type-checks", r_gen.ok, r_gen.err[-300:])
+        ctx.trusted.append("gen/asm_tables.py (reads _REPLACE_CONSTANTS_EXCEPTION, REG_INDEX_BITS, RegisterName) and "
+                           "gen/codec_tables.py (flavour tables, ctypes layouts): the assembler parameters and the codec "
+                           "at which C05_end_to_end / C05_end_to_end_wire are stated")
+        ctx.props("C05_end_to_end")
+
+    pool = ThreadPoolExecutor(max_workers=3)
+    prop_jobs = [pool.submit(ctx.props, "C04"),              # C04 proper (incl. the hardware configuration)
+                 pool.submit(ctx.props, "C04_bridges"),      # bridges from the private interpreters of C03/C05/C08/C10
+                 pool.submit(e2e_job)]
     quick = ctx.tier == "quick"
     if not quick:
         coqchk(ctx)
     fuel = 60
-    cases = generate(ctx, 2400 if quick else 60000, 18 if quick else 300, fuel)
+    cases = generate(ctx, 1800 if quick else 60000, 10 if quick else 250, fuel)
     res = evaluate(ctx, cases, "main")
     ctx.trusted.append("harness/exec_harness.py: builds real instruction objects (from_operands), runs the real "
                        "netqasm Executor (sub-classed only for the handler-call bound, _do_wait -> blocked, recording the "
@@ -198,7 +206,7 @@ def run(ctx):
         for s in ctx.samples:
             s.pop("implementation", None)
     # hardware configuration (get_is_using_hardware() on): values that fit the widths behave as specified
-    hcases = generate_hardware(ctx, 500 if quick else 5000, 4 if quick else 30, fuel)
+    hcases = generate_hardware(ctx, 400 if quick else 5000, 4 if quick else 30, fuel)
     n_h = len(hcases)
     hres = evaluate(ctx, hcases, "hardware", hardware=True)
     if hres is not None:
@@ -218,7 +226,7 @@ def run(ctx):
         ctx.coverage["hardware_config_model_mismatches"] = len(hres[0])
         ctx.coverage["hardware_config_spec_mismatches"] = len(hres[1])
     # quantum stream: SemQ (target of the C05/C08/C10 bridges) vs the real Executor
-    qcases = [H.gen_qcase(ctx.rng, fuel=fuel) for _ in range(500 if quick else 10000)]
+    qcases = [H.gen_qcase(ctx.rng, fuel=fuel) for _ in range(400 if quick else 10000)]
     qres = evaluate_quantum(ctx, qcases, "quantum")
     if qres is not None:
         qopen = set(qres[1])
@@ -233,6 +241,9 @@ def run(ctx):
         ctx.coverage["quantum_stream_open"] = len(qres[1])
         ctx.coverage["quantum_stream_events"] = sum(len(c["results"][-1]["events"]) for c in qcases)
         ctx.samples.append(case_json(qcases[0]) | {"implementation": None})
+    for job in prop_jobs:
+        job.result()
+    pool.shutdown()
     if ctx.broken and not ctx.violations:
         search(ctx, fuel)
     ctx.finish()
@@ -244,7 +255,7 @@ def coqchk(ctx):
     import vlib
     mods = ["NQ.Proofs.ExecProofs", "NQ.Proofs.Bridge_Asm", "NQ.Proofs.Bridge_AsmChain", "NQ.Proofs.Bridge_Nv",
             "NQ.Proofs.Bridge_Sdk", "NQ.Proofs.Bridge_Epr", "NQ.Proofs.Bridge_AsmQ", "NQ.Proofs.Bridge_SdkAsm",
-            "NQ.Proofs.Bridge_E2E", "NQ.Proofs.Bridge_E2E_H1"]
+            "NQ.Proofs.Bridge_E2E", "NQ.Proofs.Bridge_E2E_H1", "NQ.Proofs.Bridge_E2E_Wire", "NQ.Proofs.HwProofs"]
     r = subprocess.run(["timeout", "2400", "coqchk", "-silent", "-o", "-Q", vlib.COQ, "NQ"] + mods,
                        capture_output=True, text=True)
     out = r.stdout + r.stderr
